@@ -121,3 +121,174 @@ Section one.
     rewrite (Hone c Hc Hid), (Hone c' Hc' Hid'). done.
   Qed.
 End one.
+
+(* ================================================================ two cones of the same circuit *)
+Section cross.
+  Context (L : circuit) (rank : string → nat).
+  Hypothesis Hclosed : closed L.
+  Hypothesis Hrank : ∀ n i f, L !! n = Some i → f ∈ n_fi i → rank f < rank n.
+  Hypothesis Hbound : ∀ n i, L !! n = Some i → size (n_fi i) ≤ 2.
+  Context (oA oB : string) (HoA : oA ∈ dom L) (HoB : oB ∈ dom L).
+  Hypothesis HupA : up_ok L oA.
+  Hypothesis HupB : up_ok L oB.
+  Let coA := cone L oA.
+  Let coB := cone L oB.
+  Hypothesis HavA : avoid_ok coA oA (avoid_table coA oA).
+  Hypothesis HavB : avoid_ok coB oB (avoid_table coB oB).
+  Let AA (d : string) : gset string := default ∅ (avoid_table coA oA !! d).
+  Let AB (d : string) : gset string := default ∅ (avoid_table coB oB !! d).
+  Let SDA (n : string) : gset string := sdom (avoid_table coA oA) n.
+  Let SDB (n : string) : gset string := sdom (avoid_table coB oB) n.
+  Let sdA := sdom_table (avoid_table coA oA).
+  Let sdB := sdom_table (avoid_table coB oB).
+  Let kidsA := kids_of coA oA sdA.
+  Let kidsB := kids_of coB oB sdB.
+  Let KA (p : string) : list string := adj_of kidsA p.
+  Let KB (p : string) : list string := adj_of kidsB p.
+
+  Let C1A : ∀ x f, x ∈ dom coA → f ∈ fanin coA x → f ∈ dom coA ∧ rank f < rank x.
+  Proof. intros x f. eapply (cone_C1 L oA rank); eassumption. Qed.
+  Let C2A : ∀ P : string → Prop, P oA → (∀ x f, x ∈ dom coA → P x → f ∈ fanin coA x → P f) → ∀ x, x ∈ dom coA → P x.
+  Proof. intros P. eapply (cone_C2 L oA rank); eassumption. Qed.
+  Let C3A : oA ∈ dom coA.
+  Proof. eapply (cone_C3 L oA); eassumption. Qed.
+  Let C1B : ∀ x f, x ∈ dom coB → f ∈ fanin coB x → f ∈ dom coB ∧ rank f < rank x.
+  Proof. intros x f. eapply (cone_C1 L oB rank); eassumption. Qed.
+  Let C2B : ∀ P : string → Prop, P oB → (∀ x f, x ∈ dom coB → P x → f ∈ fanin coB x → P f) → ∀ x, x ∈ dom coB → P x.
+  Proof. intros P. eapply (cone_C2 L oB rank); eassumption. Qed.
+  Let C3B : oB ∈ dom coB.
+  Proof. eapply (cone_C3 L oB); eassumption. Qed.
+  Let faninA z : z ∈ dom coA → fanin coA z = fanin L z.
+  Proof. intros Hz. unfold coA. eapply (cone_fanin L oA); try eassumption. eapply (cone_dom L oA); eassumption. Qed.
+  Let faninB z : z ∈ dom coB → fanin coB z = fanin L z.
+  Proof. intros Hz. unfold coB. eapply (cone_fanin L oB); try eassumption. eapply (cone_dom L oB); eassumption. Qed.
+
+  Let domA_L z : z ∈ dom coA → z ∈ dom L.
+  Proof. intros Hz. eapply (up_sub_dom L oA); try eassumption. eapply (cone_dom L oA); eassumption. Qed.
+  Let domB_L z : z ∈ dom coB → z ∈ dom L.
+  Proof. intros Hz. eapply (up_sub_dom L oB); try eassumption. eapply (cone_dom L oB); eassumption. Qed.
+
+  Lemma cone_bound o z : size (fanin (cone L o) z) ≤ 2.
+  Proof.
+    destruct (cone L o !! z) as [k|] eqn:Hk.
+    - unfold fanin. rewrite Hk. simpl. pose proof Hk as Hk'. apply cone_lookup in Hk' as (_ & kL & HkL & _ & Hfi). rewrite Hfi.
+      etrans; [apply subseteq_size; apply intersection_subseteq_l|]. by eapply Hbound.
+    - assert (fanin (cone L o) z = (∅ : gset string)) as E by (unfold fanin; by rewrite Hk). rewrite E, size_empty. lia.
+  Qed.
+
+  Lemma edge_reach f x p : f ∈ fanin L x → reach L x p → reach L f p.
+  Proof. intros Hf (k & l & Hp & Hl). exists (S k), (f :: l). split; [by eapply pathl_step|simpl; lia]. Qed.
+  Lemma reach_rank x p : reach L x p → x = p ∨ rank x < rank p.
+  Proof.
+    intros (k & l & Hp & _). induction Hp as [u Hu | u w v l Hu Hp IH]; [by left|]. right.
+    apply elem_of_fanin in Hu as (i & Hi & Hf). pose proof (Hrank _ _ _ Hi Hf). destruct IH as [->|]; lia.
+  Qed.
+  Lemma in_coneA_reach x : x ∈ dom coA → reach L x oA.
+  Proof.
+    revert x. apply C2A.
+    - exists 0, [oA]. split; [by constructor|done].
+    - intros x f Hx IH Hf. rewrite (faninA x Hx) in Hf. by eapply edge_reach.
+  Qed.
+  Lemma in_coneB_reach x : x ∈ dom coB → reach L x oB.
+  Proof.
+    revert x. apply C2B.
+    - exists 0, [oB]. split; [by constructor|done].
+    - intros x f Hx IH Hf. rewrite (faninB x Hx) in Hf. by eapply edge_reach.
+  Qed.
+  Lemma reach_in_coneB x p : p ∈ dom coB → reach L x p → x ∈ dom coB.
+  Proof.
+    intros Hp Hr. unfold coB. eapply (cone_dom L oB); try eassumption. destruct HupB as [_ Hcl]. eapply closed_reach; try hyp.
+    eapply (cone_dom L oB); eassumption.
+  Qed.
+  (* what does not reach p is reachable from the output without p *)
+  Lemma notreach_avoidA x p : x ∈ dom coA → p ∈ dom coA → p ≠ oA → ¬ reach L x p → x ∈ AA p.
+  Proof.
+    intros Hx Hp Hpo. revert x Hx. apply (C2A (λ x, ¬ reach L x p → x ∈ AA p)).
+    - intros _. eapply A_o; hyp.
+    - intros x f Hx IH Hf Hnr. rewrite (faninA x Hx) in Hf.
+      assert (¬ reach L x p) as Hnx. { intros Hr. apply Hnr. by eapply edge_reach. }
+      eapply (A_closed coA oA HavA p x f); try hyp; [by apply IH|apply usucc_el; left; by rewrite faninA|].
+      intros ->. apply Hnr. destruct (C1A x p Hx) as [Hpd _]; [by rewrite faninA|]. exists 0, [p]. split; [|done]. constructor. by apply domA_L.
+  Qed.
+
+  (* ---- the root r of a supergate grown in cone A, and the nodes it dominates there ---- *)
+  Context (r : string) (Hr : r ∈ dom coA).
+  Hypothesis Hroot : r = oA ∨ 1 < length (KA r).
+  Hypothesis HrB : r ∈ dom coB.
+  Definition below (x : string) : Prop := x = r ∨ (x ∈ dom coA ∧ r ∈ SDA x).
+  Global Instance below_dec x : Decision (below x). Proof. unfold below. apply _. Defined.
+
+  Lemma no_sdom_root x : x ∈ SDA oA → False.
+  Proof. intros Hx. eapply SD_elem in Hx as (Hd & Hne & Hn). apply Hn. eapply A_o; hyp. Qed.
+  Lemma below_dom x : below x → x ∈ dom coA.
+  Proof. intros [->|[? _]]; done. Qed.
+  Lemma below_fanin x f : below x → f ∈ fanin coA x → below f.
+  Proof.
+    intros Hx Hf. right. destruct (C1A x f (below_dom x Hx) Hf) as [Hfd _]. split; [done|].
+    destruct Hx as [->|[Hxd Hrx]].
+    - destruct Hroot as [->|Hl].
+      + pose proof (root_operand_child coA oA rank C1A C2A C3A HavA f Hf) as Hid. by destruct (ID_Some coA oA f oA Hfd Hid).
+      + destruct (decide (r = oA)) as [->|Hro].
+        * pose proof (root_operand_child coA oA rank C1A C2A C3A HavA f Hf) as Hid. by destruct (ID_Some coA oA f oA Hfd Hid).
+        * eapply (frontier_dominates coA oA rank C1A C2A C3A HavA r f); try hyp.
+          apply cone_bound.
+    - assert (x ≠ oA) as Hxo. { intros ->. by eapply no_sdom_root. }
+      eapply (adj_sub coA oA rank C1A C2A C3A HavA x f r); hyp.
+  Qed.
+  (* a node strictly below r has all its neighbours (in cone A) below r *)
+  Lemma below_neighbour y z : below y → y ≠ r → z ∈ dom coA → y ∈ usucc coA oA z → below z.
+  Proof.
+    intros [->|[Hyd Hry]] Hyr Hz Hadj; [done|]. destruct (decide (below z)) as [|Hnb]; [done|]. exfalso.
+    assert (z ≠ r) as Hzr. { intros ->. apply Hnb. by left. }
+    destruct (decide (r = oA)) as [Hro|Hro].
+    { apply Hnb. right. split; [done|]. eapply SD_elem. split; [done|]. split; [done|]. rewrite Hro.
+      unfold coA. rewrite (A_root (cone L oA) oA C3A). set_solver. }
+    assert (z ∈ AA r) as HzA.
+    { destruct (decide (z ∈ AA r)) as [|Hn]; [done|]. exfalso. apply Hnb. right. split; [done|]. eapply SD_elem. done. }
+    eapply SD_elem in Hry as (_ & _ & Hbad). apply Hbad. eapply (A_closed coA oA HavA r z y); hyp.
+  Qed.
+  (* dominated by r implies (not not) upstream of r *)
+  Lemma below_reach x : below x → ¬ ¬ reach L x r.
+  Proof.
+    intros [->|[Hxd Hrx]] Hn.
+    - apply Hn. exists 0, [r]. split; [|done]. constructor. by apply domA_L.
+    - destruct (decide (r = oA)) as [Hro|Hro]; [apply Hn; rewrite Hro; by apply in_coneA_reach|].
+      eapply SD_elem in Hrx as (_ & _ & Hbad). apply Hbad. by apply notreach_avoidA.
+  Qed.
+  Lemma below_coneB x : below x → x ∈ dom coB.
+  Proof.
+    intros Hx. destruct (decide (x ∈ dom coB)) as [|Hn]; [done|]. exfalso. apply (below_reach x Hx). intros Hre.
+    apply Hn. by eapply reach_in_coneB.
+  Qed.
+  Lemma below_rank x : below x → x ≠ r → rank x < rank r.
+  Proof.
+    intros Hx Hne. destruct (decide (rank x < rank r)) as [|Hn]; [done|]. exfalso. apply (below_reach x Hx). intros Hre.
+    destruct (reach_rank x r Hre); [done|lia].
+  Qed.
+  Lemma below_not_oB x : below x → x ≠ r → x ≠ oB.
+  Proof.
+    intros Hx Hne ->. pose proof (below_rank oB Hx Hne). pose proof (rank_le_o coB oB rank C1B C2B r HrB). lia.
+  Qed.
+
+  (* inside the region below r, dominance in cone B implies dominance in cone A *)
+  Lemma domB_domA d x : below d → d ≠ r → below x → d ∈ SDB x → d ∈ SDA x.
+  Proof.
+    intros Hd Hdr Hx HdB. pose proof (below_dom d Hd) as HdA. pose proof (below_coneB d Hd) as HdBd.
+    pose proof (below_not_oB d Hd Hdr) as HdoB.
+    assert (d ≠ oA) as HdoA. { intros ->. destruct Hd as [|[_ Hbad]]; [done|]. by eapply no_sdom_root. }
+    assert (r ∈ AB d) as HrAB. { eapply rank_avoid; try hyp. by apply below_rank. }
+    eapply SD_elem in HdB as (_ & Hdx & HxB). eapply SD_elem. split; [done|]. split; [done|]. intros HxA. apply HxB.
+    clear Hdx HxB. revert Hx. revert x HxA. eapply (A_least coA oA rank C1A C2A C3A HavA d (λ z, below z → z ∈ AB d)); try hyp.
+    - intros [E|[_ Hbad]]; [by rewrite E|]. exfalso. by eapply no_sdom_root.
+    - intros z y Hz IH Hy Hyd Hby.
+      destruct (decide (y = r)) as [->|Hyr]; [done|].
+      pose proof (below_neighbour y z Hby Hyr Hz Hy) as Hbz. specialize (IH Hbz).
+      pose proof (below_coneB z Hbz) as HzB. pose proof (below_coneB y Hby) as HyB.
+      eapply (A_closed coB oB HavB d z y); try hyp.
+      apply usucc_el. apply usucc_el in Hy as [Hy|[Hy _]].
+      + left. rewrite faninB by done. by rewrite faninA in Hy.
+      + right. split; [|by apply below_not_oB]. apply elem_of_fanout in Hy as (i & Hi & Hzi).
+        assert (z ∈ fanin coA y) as Hzf by (apply elem_of_fanin; eauto). rewrite faninA in Hzf by (by eapply elem_of_dom_2).
+        rewrite <- (faninB y HyB) in Hzf. apply elem_of_fanin in Hzf as (j & Hj & Hzj). apply elem_of_fanout. eauto.
+  Qed.
+End cross.
